@@ -126,9 +126,7 @@ def run(ch, ctx, fault=None):
         cls_of = {"kitty": ti_image.KittyImage, "iterm2": ti_image.ITerm2Image,
                   "block": ti_image.BlockImage}
         style_of = {v: k_ for k_, v in cls_of.items()}
-        entry = tty.attrs
-        import copy
-        entry_copy = copy.deepcopy(entry)
+        entry_copy = tty.mark_entry()
         n_ops = ch.int("n_ops", 1, ctx.cfg["max_ops"])
         for i in range(n_ops):
             op = ch.weighted("op", [
